@@ -177,3 +177,51 @@ func (r *Report) flushPartial() {
 		}
 	}
 }
+
+// Isolated runs body in a worker subprocess of the same test (the code under test may panic in one of its own
+// goroutines or die with a Go fatal error, which no recover() can catch). The body journals what it is about to do;
+// if the worker dies, onDeath receives the last journal entry and the tail of the output. Returns true in the parent.
+func Isolated(t *testing.T, rep *Report, testName string, timeout time.Duration, body func(journal func(string)), onDeath func(last, output string)) bool {
+	if jf := os.Getenv("VERIF_ISOLATED_JOURNAL"); jf != "" {
+		body(func(s string) { _ = os.WriteFile(jf, []byte(s), 0o644) })
+		return false
+	}
+	dir, err := os.MkdirTemp("", "verif-iso-")
+	if err != nil {
+		t.Fatal(err)
+	}
+	defer os.RemoveAll(dir)
+	journal, out := filepath.Join(dir, "journal"), filepath.Join(dir, "out.json")
+	cmd := exec.Command(os.Args[0], "-test.run", "^"+testName+"$", "-test.timeout", "0")
+	cmd.Env = append(os.Environ(), "VERIF_ISOLATED_JOURNAL="+journal, "VERIF_WORKER_OUT="+out)
+	var buf strings.Builder
+	cmd.Stdout, cmd.Stderr = &buf, &buf
+	if err := cmd.Start(); err != nil {
+		t.Fatal(err)
+	}
+	done := make(chan error, 1)
+	go func() { done <- cmd.Wait() }()
+	var werr error
+	how := ""
+	select {
+	case werr = <-done:
+		if werr != nil {
+			how = "died: " + werr.Error()
+		}
+	case <-time.After(timeout):
+		how = "hang"
+		_ = cmd.Process.Kill()
+		<-done
+	}
+	var part Report
+	if b, err := os.ReadFile(out); err == nil && json.Unmarshal(b, &part) == nil {
+		rep.Merge(&part)
+	} else if how == "" {
+		how = "wrote no report"
+	}
+	if how != "" {
+		last, _ := os.ReadFile(journal)
+		onDeath(how+" | "+string(last), tail(buf.String(), 2500))
+	}
+	return true
+}
